@@ -364,7 +364,10 @@ def do_setup():
     with lean_lock():
         rc, out = lake(['build'] + sorted(mods) + ['driver'])
         if rc == 0:
-            rc_t, out_t = lake(['build', 'NetaddrVerif.Props.Tie', 'NetaddrVerif.Props.TieContains'])
+            tmods = set()
+            for f in glob.glob(os.path.join(VERIF, 'obligations', '*.json')):
+                tmods.update(json.load(open(f)).get('tie_modules', []))
+            rc_t, out_t = lake(['build'] + sorted(tmods)) if tmods else (0, '')
             if rc_t != 0:
                 out += '\n(translation tie module did not build; the checks fall back to correspondence for it)\n' + out_t[-600:]
     sys.stdout.write(out[-3000:])
